@@ -23,7 +23,11 @@ fn main() {
         serde_json::from_str(&std::fs::read_to_string(progf.expect("--gen or --prog")).unwrap()).unwrap()
     };
     vh::coll::init();
-    let mut w = std::io::BufWriter::new(std::fs::File::create(out.expect("--out")).unwrap());
+    let out = out.expect("--out");
+    let mut w = std::io::BufWriter::new(std::fs::File::create(&out).unwrap());
+    // arena-level view of the same runs: every arena operation the collections perform (API hooks)
+    let mut wa = std::io::BufWriter::new(std::fs::File::create(format!("{}.arena", out)).unwrap());
+    vh::apitrace::install_mem("collx");
     let mut dumpw = dump.map(|d| std::io::BufWriter::new(std::fs::File::create(d).unwrap()));
     let mut n = 0usize;
     for (pi, p) in progs.iter().enumerate() {
@@ -35,6 +39,13 @@ fn main() {
             n += 1;
         }
         w.flush().unwrap();
+        for mut e in vh::apitrace::take() {
+            e.ar = e.p;
+            e.p = pi;
+            serde_json::to_writer(&mut wa, &e).unwrap();
+            wa.write_all(b"\n").unwrap();
+        }
+        wa.flush().unwrap();
     }
     eprintln!("programs={} events={}", progs.len(), n);
 }
